@@ -8,6 +8,10 @@ EXTENDS IEEE
 
 TF(h, l) == [hi |-> h, lo |-> l]
 
+\* binary32, for f32::from(TwoFloat) / From<f32>
+F32 == INSTANCE IEEE WITH P <- 24, EMIN <- -126, EMAX <- 127
+CastF32(w) == IF w.k = "f" THEN F32!RN(D(w)) ELSE w
+
 \* exact value of a pair of finite words
 Value(x) == DAdd(D(x.hi), D(x.lo))
 
@@ -21,6 +25,7 @@ NoOverlapDef(a, b) ==
   /\ a.k = "f" /\ b.k = "f"
   /\ \/ b.mag = <<>>
      \/ /\ a.mag # <<>>
+        /\ b.e + BitLen(b.mag) < a.e + BitLen(a.mag) + 2        \* else |b| >= 4|a|/2: the sum cannot be a
         /\ \/ b.e + BitLen(b.mag) - 1 < a.e - 2
            \/ FEq(FAdd(a, b), a)
 
